@@ -36,7 +36,7 @@ PLAN = {
         "quick": [
             {"run": "TestC02_Repeat", "checks": 3000},
             {"run": "TestC02_Shipped", "checks": 40},
-            {"run": "TestC02_Procs", "checks": 15},
+            {"run": "TestC02_Procs", "checks": 60},
             {"run": "TestC02_Huge", "checks": 5},
             {"run": "TestC02_ProcsBatch", "checks": 8},
         ],
@@ -62,7 +62,7 @@ PLAN = {
         "wtf": True,
         "quick": [
             {"run": "TestC04_Filters", "checks": 6000},
-            {"run": "TestC04_CLI", "checks": 60},
+            {"run": "TestC04_CLI", "checks": 300},
             {"run": "TestC04_Concurrent", "checks": 60, "cores": 8},
         ],
         "thorough": [
